@@ -153,6 +153,51 @@ inline void walk_pubkey(const psPubKey_t *k, Dig &d) {
     d.u(k->keysize);
 }
 
+// ------------------------------------------------------------------------------------------------ private keys
+// "On success the returned object is internally consistent" for the private-key parsers.  A parser that
+// reports success through a TYPED entry point (psRsaKey_t * / psEccKey_t * out parameter, or a key type the
+// caller asked for) must hand back a key of that type; what is asserted is only what the typed parsers
+// themselves establish on every successful return:
+//   psRsaParsePkcs1PrivKey : N, e, d are read (non-NULL digit arrays), size = byte length of N (pubkey_matrix.h)
+//   psEccParsePrivKey      : curve is one of the library's curve records, k is read, type = PS_PRIVKEY
+//   psPubKey_t (pubkey.h)  : "type" selects the union member, "keysize: in bytes"; every in-tree producer sets
+//                            keysize = psRsaSize() / psEccSize() / 32 (pubkey_parse_mem.c, pubkey_parse_file.c)
+// A key that was produced by copying the wrong union member of a psPubKey_t violates one of these.
+inline void check_rsa_priv(const psRsaKey_t *k, const char *who) {
+    VF_CHECK(k->N.dp && k->e.dp && k->d.dp, "privkey-rsa-incomplete", "%s reported success but the RSA key lacks %s%s%s", who,
+             k->N.dp ? "" : "N ", k->e.dp ? "" : "e ", k->d.dp ? "" : "d");
+    unsigned sz = pstm_unsigned_bin_size(&k->N);
+    VF_CHECK(k->size == sz, "walker-rsa-size", "%s: psRsaKey_t.size %u != modulus bytes %u", who, (unsigned) k->size, sz);
+}
+inline void check_ecc_priv(const psEccKey_t *k, const char *who) {
+    VF_CHECK(k->curve != NULL, "privkey-ecc-curve", "%s reported success but the EC key has no curve", who);
+    VF_CHECK(addressable(k->curve, sizeof *k->curve), "privkey-ecc-curve", "%s: EC key curve pointer is not addressable", who);
+    const psEccCurve_t *lib = NULL;
+    VF_CHECK(getEccParamById(k->curve->curveId, &lib) >= 0 && lib == k->curve, "privkey-ecc-curve",
+             "%s: EC key curve pointer is not one of the library's curve records (curveId %u)", who, (unsigned) k->curve->curveId);
+    VF_CHECK(k->type == PS_PRIVKEY && k->k.dp != NULL, "privkey-ecc-nopriv", "%s reported success but the EC key has no private part (type %d, k %s)", who,
+             (int) k->type, k->k.dp ? "present" : "NULL");
+}
+// want = the key type the caller asked the parser for (0 = any of RSA / ECC / Ed25519)
+inline void check_privkey(const psPubKey_t *k, int want, const char *who) {
+    VF_CHECK(k->type == PS_RSA || k->type == PS_ECC || k->type == PS_ED25519, "privkey-type", "%s reported success with key type %d", who, (int) k->type);
+    if (want) VF_CHECK(k->type == want, "privkey-type", "%s was asked for key type %d and reported success with key type %d", who, want, (int) k->type);
+    switch (k->type) {
+    case PS_RSA:
+        check_rsa_priv(&k->key.rsa, who);
+        VF_CHECK(k->keysize == k->key.rsa.size, "privkey-keysize", "%s: RSA keysize %u != key size %u", who, (unsigned) k->keysize, (unsigned) k->key.rsa.size);
+        break;
+    case PS_ECC:
+        check_ecc_priv(&k->key.ecc, who);
+        VF_CHECK(k->keysize == 2u * k->key.ecc.curve->size, "privkey-keysize", "%s: EC keysize %u != 2 * curve size %u", who, (unsigned) k->keysize, (unsigned) k->key.ecc.curve->size);
+        break;
+    default:
+        VF_CHECK(k->key.ed25519.havePriv, "ed25519-nopriv", "%s: success without havePriv", who);
+        VF_CHECK(k->keysize == 32, "privkey-keysize", "%s: Ed25519 keysize %u != 32", who, (unsigned) k->keysize);
+        break;
+    }
+}
+
 #ifdef USE_X509
 // ------------------------------------------------------------------------------------------------ X.509 pieces
 // x509.h: "DN_NUM_TERMINATING_NULLS: Number of null-bytes to terminate parsed string-type DN attributes with";
